@@ -144,7 +144,8 @@ static bool apply(const string& op, W& x, T& n, T a, T b, uint64_t& wret, uint64
       BIN("|=", |=)
       BIN("^=", ^=)
       if (op == "<<=" || op == ">>=") {
-        int sh = (int)((uint64_t)b % (sizeof(T) * 8));
+        // 8/16-bit operands are promoted to int: distances up to 31 are well-defined for them (C++20)
+        int sh = (int)((uint64_t)b % (sizeof(T) < 4 ? 32 : sizeof(T) * 8));
         if (op == "<<=") {
           T r1 = (x <<= sh);
           T r2 = (n <<= sh);
